@@ -113,7 +113,7 @@ theorem shiftLoop_spec (c : Cfg) (k : Nat) : ∀ (s : S), s.err = none →
 
 /-- the directory after a completed rollover that found directory `g` (stream already closed) -/
 def rollSpec (N : Int) (hist : Nat) (g : Int → Option File) : Int → Option File := fun n =>
-  if n = 0 then some ⟨hist, []⟩
+  if n = 0 then some ⟨hist, true, []⟩
   else if 0 < N then
     (if n = 1 then g 0
      else if 2 ≤ n ∧ n ≤ N then
@@ -124,7 +124,7 @@ def rollSpec (N : Int) (hist : Nat) (g : Int → Option File) : Int → Option F
 theorem openFile_trunc_spec (n : Int) (s : S) :
     (openFile n true s).err = s.err ∧ (openFile n true s).stream = .attached n ∧
     (openFile n true s).hist = s.hist ∧
-    ∀ m, (openFile n true s).dir.get m = if m = n then some ⟨s.hist, []⟩ else s.dir.get m := by
+    ∀ m, (openFile n true s).dir.get m = if m = n then some ⟨s.hist, true, []⟩ else s.dir.get m := by
   simp [openFile]
 
 theorem rolloverBody_spec (c : Cfg) (s : S) (h : s.err = none) :
@@ -214,10 +214,10 @@ structure InvB (c : Cfg) (s : S) : Prop where
 /-- what a write does to the directory of a state satisfying `InvB`, pointwise -/
 def writeDir (c : Cfg) (s : S) (f : File) (b : Bytes) : Int → Option File := fun n =>
   if ((f.data ++ b).length : Int) < c.maxBytes then
-    (if n = 0 then some ⟨f.start, f.data ++ b⟩ else s.dir.get n)
+    (if n = 0 then some ⟨f.start, f.own, f.data ++ b⟩ else s.dir.get n)
   else
-    (if n = 0 then some ⟨s.hist + b.length, []⟩
-     else if n = 1 ∧ 1 ≤ c.backupCount then some ⟨f.start, f.data ++ b⟩
+    (if n = 0 then some ⟨s.hist + b.length, true, []⟩
+     else if n = 1 ∧ 1 ≤ c.backupCount then some ⟨f.start, f.own, f.data ++ b⟩
      else if 2 ≤ n ∧ n ≤ c.backupCount then s.dir.get (n - 1)
      else none)
 
@@ -231,10 +231,10 @@ theorem emit_InvB (c : Cfg) (hr : c.rotating = true) (hm : 0 < c.maxBytes)
   rw [okThen_ok _ _ ok]
   simp only [hr, if_true]
   have hs1 : ({ streamWrite b s with hist := s.hist + b.length } : S) =
-      ⟨dirSet s.dir 0 ⟨f.start, f.data ++ b⟩, .attached 0, s.hist + b.length, none⟩ := by
+      ⟨dirSet s.dir 0 ⟨f.start, f.own, f.data ++ b⟩, .attached 0, s.hist + b.length, none⟩ := by
     simp [streamWrite, att, hf, ok]
   rw [hs1]
-  rw [doRollover_attached c _ ⟨f.start, f.data ++ b⟩ 0 rfl rfl (by simp) hm]
+  rw [doRollover_attached c _ ⟨f.start, f.own, f.data ++ b⟩ 0 rfl rfl (by simp) hm]
   by_cases hl : ((f.data ++ b).length : Int) < c.maxBytes
   · rw [if_pos hl]
     refine ⟨rfl, rfl, rfl, ?_⟩
@@ -242,7 +242,7 @@ theorem emit_InvB (c : Cfg) (hr : c.rotating = true) (hm : 0 < c.maxBytes)
     simp only [writeDir, if_pos hl, get_dirSet]
   · rw [if_neg hl]
     obtain ⟨e, st, hi, g⟩ := rolloverBody_spec c
-      ⟨dirSet s.dir 0 ⟨f.start, f.data ++ b⟩, .attached 0, s.hist + b.length, none⟩ rfl
+      ⟨dirSet s.dir 0 ⟨f.start, f.own, f.data ++ b⟩, .attached 0, s.hist + b.length, none⟩ rfl
     refine ⟨e, st, hi, ?_⟩
     intro n
     rw [g n]
@@ -254,17 +254,17 @@ theorem emit_InvB (c : Cfg) (hr : c.rotating = true) (hm : 0 < c.maxBytes)
     have key : ∀ g : Int → Option File,
         ((g n).isSome = true → 0 ≤ n ∧ n ≤ c.backupCount) →
         (0 ≤ n - 1 → (g (n - 1 + 1)).isSome = true → (g (n - 1)).isSome = true) →
-        (if n = 0 then some (⟨s.hist + b.length, []⟩ : File)
+        (if n = 0 then some (⟨s.hist + b.length, true, []⟩ : File)
           else if 0 < c.backupCount then
-            (if n = 1 then (if True then some (⟨f.start, f.data ++ b⟩ : File) else g 0)
+            (if n = 1 then (if True then some (⟨f.start, f.own, f.data ++ b⟩ : File) else g 0)
              else if 2 ≤ n ∧ n ≤ c.backupCount then
-               (if (if n - 1 = 0 then some (⟨f.start, f.data ++ b⟩ : File) else g (n - 1)).isSome = true then
-                  (if n - 1 = 0 then some ⟨f.start, f.data ++ b⟩ else g (n - 1))
-                else if n = c.backupCount then (if n = 0 then some ⟨f.start, f.data ++ b⟩ else g n) else none)
-             else (if n = 0 then some ⟨f.start, f.data ++ b⟩ else g n))
-          else (if n = 0 then some ⟨f.start, f.data ++ b⟩ else g n)) =
-        (if n = 0 then some (⟨s.hist + b.length, []⟩ : File)
-          else if n = 1 ∧ 1 ≤ c.backupCount then some ⟨f.start, f.data ++ b⟩
+               (if (if n - 1 = 0 then some (⟨f.start, f.own, f.data ++ b⟩ : File) else g (n - 1)).isSome = true then
+                  (if n - 1 = 0 then some ⟨f.start, f.own, f.data ++ b⟩ else g (n - 1))
+                else if n = c.backupCount then (if n = 0 then some ⟨f.start, f.own, f.data ++ b⟩ else g n) else none)
+             else (if n = 0 then some ⟨f.start, f.own, f.data ++ b⟩ else g n))
+          else (if n = 0 then some ⟨f.start, f.own, f.data ++ b⟩ else g n)) =
+        (if n = 0 then some (⟨s.hist + b.length, true, []⟩ : File)
+          else if n = 1 ∧ 1 ≤ c.backupCount then some ⟨f.start, f.own, f.data ++ b⟩
           else if 2 ≤ n ∧ n ≤ c.backupCount then g (n - 1) else none) := by
       intro g hb hc
       have e1 : n - 1 + 1 = n := by omega
@@ -298,8 +298,8 @@ theorem InvB_write (c : Cfg) (hr : c.rotating = true) (hm : 0 < c.maxBytes) (hN 
   · rw [g 0]
     unfold writeDir
     by_cases hl : ((f.data ++ b).length : Int) < c.maxBytes
-    · exact ⟨⟨f.start, f.data ++ b⟩, by simp only [if_pos hl, if_true], hl⟩
-    · exact ⟨⟨s.hist + b.length, []⟩, by simp only [if_neg hl, if_true], by simpa using hm⟩
+    · exact ⟨⟨f.start, f.own, f.data ++ b⟩, by simp only [if_pos hl, if_true], hl⟩
+    · exact ⟨⟨s.hist + b.length, true, []⟩, by simp only [if_neg hl, if_true], by simpa using hm⟩
   · intro n hn
     rw [g n, g (n + 1)]
     unfold writeDir
@@ -360,7 +360,7 @@ theorem modeTruncates_false (c : Cfg) : modeTruncates c = false := by
 theorem fhReopen_spec (c : Cfg) (s : S) (h : s.err = none) :
     (fhReopen c s).err = none ∧ (fhReopen c s).stream = .attached 0 ∧ (fhReopen c s).hist = s.hist ∧
     ∀ n, (fhReopen c s).dir.get n =
-      if n = 0 ∧ (s.dir.get 0).isSome = false then some ⟨s.hist, []⟩ else s.dir.get n := by
+      if n = 0 ∧ (s.dir.get 0).isSome = false then some ⟨s.hist, true, []⟩ else s.dir.get n := by
   unfold fhReopen
   rw [okThen_ok _ _ h]
   simp only [openFile, modeTruncates_false, fhReopen_idx, closeStream, fexists, Bool.false_or]
@@ -400,7 +400,7 @@ theorem fhRemove_spec (s : S) (h : s.err = none) :
 theorem clear_spec (c : Cfg) (s : S) (h : s.err = none) :
     (fhReopen c (fhRemove s)).err = none ∧ (fhReopen c (fhRemove s)).stream = .attached 0 ∧
     (fhReopen c (fhRemove s)).hist = s.hist ∧
-    ∀ n, (fhReopen c (fhRemove s)).dir.get n = if n = 0 then some ⟨s.hist, []⟩ else s.dir.get n := by
+    ∀ n, (fhReopen c (fhRemove s)).dir.get n = if n = 0 then some ⟨s.hist, true, []⟩ else s.dir.get n := by
   obtain ⟨e1, _, h1, g1⟩ := fhRemove_spec s h
   obtain ⟨e2, s2, h2, g2⟩ := fhReopen_spec c _ e1
   refine ⟨e2, s2, h2.trans h1, ?_⟩
@@ -422,7 +422,7 @@ theorem InvB_clear (c : Cfg) (hm : 0 < c.maxBytes) (s : S) (I : InvB c s) :
     InvB c (fhReopen c (fhRemove s)) := by
   obtain ⟨e, st, _, g⟩ := clear_spec c s I.ok
   obtain ⟨f, hf, hfl⟩ := I.live
-  refine ⟨e, st, ⟨⟨s.hist, []⟩, by rw [g]; simp, by simpa using hm⟩, ?_, ?_, ?_⟩
+  refine ⟨e, st, ⟨⟨s.hist, true, []⟩, by rw [g]; simp, by simpa using hm⟩, ?_, ?_, ?_⟩
   · intro n hn
     rw [g, g]
     have := I.contig n hn
@@ -444,10 +444,10 @@ theorem InvB_clear (c : Cfg) (hm : 0 < c.maxBytes) (s : S) (I : InvB c s) :
     simpa [h0] using I.full n x hn
 
 theorem InvB_init (c : Cfg) (hm : 0 < c.maxBytes) (hN : 0 ≤ c.backupCount) : InvB c (init c) := by
-  have hg : ∀ n, (init c).dir.get n = if n = 0 then some ⟨0, []⟩ else none := by
+  have hg : ∀ n, (init c).dir.get n = if n = 0 then some ⟨0, true, []⟩ else none := by
     intro n
     simp [init, openFile, fexists]
-  refine ⟨by simp [init, openFile, fexists], by simp [init, openFile, fexists], ⟨⟨0, []⟩, by rw [hg]; simp, by simpa using hm⟩, ?_, ?_, ?_⟩
+  refine ⟨by simp [init, openFile, fexists], by simp [init, openFile, fexists], ⟨⟨0, true, []⟩, by rw [hg]; simp, by simpa using hm⟩, ?_, ?_, ?_⟩
   · intro n hn
     rw [hg, hg]
     have : ¬ n + 1 = 0 := by omega
@@ -520,7 +520,7 @@ theorem chain_write (c : Cfg) (hr : c.rotating = true) (hm : 0 < c.maxBytes) (hN
       simp [content, writeDir, hl, hl', this]
   · -- a rollover
     have hl' : ¬ (f.data.length : Int) + (b.length : Int) < c.maxBytes := by simpa using hl
-    let g1 : Int → Option File := fun n => if n = 0 then some ⟨f.start, f.data ++ b⟩ else s.dir.get n
+    let g1 : Int → Option File := fun n => if n = 0 then some ⟨f.start, f.own, f.data ++ b⟩ else s.dir.get n
     have h1 : ∀ k, chain g1 k = chain s.dir.get k ++ b := by
       apply chain_append0
       · simp [content, g1, hf]
@@ -574,17 +574,17 @@ theorem emit_attached_gen (c : Cfg) (hr : c.rotating = true) (hm : 0 < c.maxByte
     (emit c b s).err = none ∧ (emit c b s).stream = .attached 0 ∧ (emit c b s).hist = s.hist + b.length ∧
     ∀ n, (emit c b s).dir.get n =
       if ((f.data ++ b).length : Int) < c.maxBytes then
-        (if n = 0 then some ⟨f.start, f.data ++ b⟩ else s.dir.get n)
+        (if n = 0 then some ⟨f.start, f.own, f.data ++ b⟩ else s.dir.get n)
       else rollSpec c.backupCount (s.hist + b.length)
-        (fun m => if m = 0 then some ⟨f.start, f.data ++ b⟩ else s.dir.get m) n := by
+        (fun m => if m = 0 then some ⟨f.start, f.own, f.data ++ b⟩ else s.dir.get m) n := by
   unfold emit
   rw [okThen_ok _ _ h]
   simp only [hr, if_true]
   have hs1 : ({ streamWrite b s with hist := s.hist + b.length } : S) =
-      ⟨dirSet s.dir 0 ⟨f.start, f.data ++ b⟩, .attached 0, s.hist + b.length, none⟩ := by
+      ⟨dirSet s.dir 0 ⟨f.start, f.own, f.data ++ b⟩, .attached 0, s.hist + b.length, none⟩ := by
     simp [streamWrite, hs, hf, h]
   rw [hs1]
-  rw [doRollover_attached c _ ⟨f.start, f.data ++ b⟩ 0 rfl rfl (by simp) hm]
+  rw [doRollover_attached c _ ⟨f.start, f.own, f.data ++ b⟩ 0 rfl rfl (by simp) hm]
   by_cases hl : ((f.data ++ b).length : Int) < c.maxBytes
   · rw [if_pos hl]
     refine ⟨rfl, rfl, rfl, ?_⟩
@@ -592,7 +592,7 @@ theorem emit_attached_gen (c : Cfg) (hr : c.rotating = true) (hm : 0 < c.maxByte
     simp only [if_pos hl, get_dirSet]
   · rw [if_neg hl]
     obtain ⟨e, st, hi, g⟩ := rolloverBody_spec c
-      ⟨dirSet s.dir 0 ⟨f.start, f.data ++ b⟩, .attached 0, s.hist + b.length, none⟩ rfl
+      ⟨dirSet s.dir 0 ⟨f.start, f.own, f.data ++ b⟩, .attached 0, s.hist + b.length, none⟩ rfl
     refine ⟨e, st, hi, ?_⟩
     intro n
     rw [g n]
@@ -603,23 +603,23 @@ theorem emit_detached_gen (c : Cfg) (hr : c.rotating = true) (hm : 0 < c.maxByte
     (s : S) (h : s.err = none) (f : File) (hs : s.stream = .detached f) (b : Bytes) :
     (emit c b s).err = none ∧ (emit c b s).hist = s.hist + b.length ∧
     (if ((f.data ++ b).length : Int) < c.maxBytes then
-        (emit c b s).stream = .detached ⟨f.start, f.data ++ b⟩ ∧ ∀ n, (emit c b s).dir.get n = s.dir.get n
+        (emit c b s).stream = .detached ⟨f.start, f.own, f.data ++ b⟩ ∧ ∀ n, (emit c b s).dir.get n = s.dir.get n
      else (emit c b s).stream = .attached 0 ∧
         ∀ n, (emit c b s).dir.get n = rollSpec c.backupCount (s.hist + b.length) s.dir.get n) := by
   unfold emit
   rw [okThen_ok _ _ h]
   simp only [hr, if_true]
   have hs1 : ({ streamWrite b s with hist := s.hist + b.length } : S) =
-      ⟨s.dir, .detached ⟨f.start, f.data ++ b⟩, s.hist + b.length, none⟩ := by
+      ⟨s.dir, .detached ⟨f.start, f.own, f.data ++ b⟩, s.hist + b.length, none⟩ := by
     simp [streamWrite, hs, h]
   rw [hs1]
-  rw [doRollover_detached c _ ⟨f.start, f.data ++ b⟩ rfl rfl hm]
+  rw [doRollover_detached c _ ⟨f.start, f.own, f.data ++ b⟩ rfl rfl hm]
   by_cases hl : ((f.data ++ b).length : Int) < c.maxBytes
   · rw [if_pos hl, if_pos hl]
     exact ⟨rfl, rfl, rfl, fun _ => rfl⟩
   · rw [if_neg hl, if_neg hl]
     obtain ⟨e, st, hi, g⟩ := rolloverBody_spec c
-      ⟨s.dir, .detached ⟨f.start, f.data ++ b⟩, s.hist + b.length, none⟩ rfl
+      ⟨s.dir, .detached ⟨f.start, f.own, f.data ++ b⟩, s.hist + b.length, none⟩ rfl
     exact ⟨e, hi, st, g⟩
 
 /-- the stream is open -/
